@@ -29,7 +29,7 @@ func exactSec(pub uint32, off uint16) int64 {
 
 func runC15(r *core.Run) {
 	r.Level = "exploration"
-	r.Rule = "published in {0,1,2^31-1,2^31,2^31+1,2^32-2,2^32-1,now} x ALL 65,536 expires offsets for LeaseSet2, EncryptedLeaseSet and MetaLeaseSet (values obtained by parsing reference encodings); Lease2 end dates over the 32-bit boundary set and NewLease2 on out-of-range times; 8-byte lease dates below 2^63; offline-signature and meta-entry expiry; lease sets: all tuples of 1..6 dates over a 3-value menu, all permutations of 4 distinct dates, 16 leases with the extremum at every position with ties; IsExpired at +-1 day. Oracle: math/big arithmetic on the raw fields. non-trivial = distinct (structure, published, offset) triples and lease-date tuples evaluated"
+	r.Rule = "published in {0,1,2^31-1,2^31,2^31+1,2^32-2,2^32-1,now} x ALL 65,536 expires offsets for LeaseSet2, EncryptedLeaseSet and MetaLeaseSet (values obtained by parsing reference encodings); Lease2 end dates and offline expiry over {0, 2^k-1, 2^k, 2^k+1 (k<32), 2^32-1, now+-1d} through constructor AND parser; NewLease2 on out-of-range times: 2^k and neighbours (k=32..62), a grid of 40,000 instants between 2^32 and 2^62 s, negatives, sub-second parts at both edges; 8-byte lease dates below 2^63; offline-signature and meta-entry expiry; lease sets: all tuples of 1..6 dates over a 3-value menu, all permutations of 4 distinct dates, 16 leases with the extremum at every position with ties; IsExpired at +-1 day. Oracle: math/big arithmetic on the raw fields. non-trivial = distinct (structure, published, offset) triples and lease-date tuples evaluated"
 	bad := func(clause, fn, detail string) {
 		r.Violate("C15|"+clause+"|"+fn, detail, core.Case{Kind: "sweep", Args: map[string]string{"fn": fn, "detail": detail}})
 	}
@@ -120,7 +120,11 @@ func runC15(r *core.Run) {
 		}
 	}
 	// Lease2
-	for _, sec := range []uint32{0, 1, 1<<31 - 1, 1 << 31, 1<<31 + 1, 1<<32 - 2, 1<<32 - 1, now} {
+	secs := []uint32{0, 1, 1<<31 - 1, 1 << 31, 1<<31 + 1, 1<<32 - 2, 1<<32 - 1, now}
+	for k := 1; k < 32; k++ {
+		secs = append(secs, 1<<k-1, 1<<k, 1<<k+1)
+	}
+	for _, sec := range secs {
 		r.Evaluations.Add(1)
 		l2 := refmodel.Lease2{Hash: [32]byte{9}, TunnelID: 3, EndSec: sec}
 		v, _, err := lease.ReadLease2(l2.Bytes())
@@ -138,10 +142,37 @@ func runC15(r *core.Run) {
 		}
 		r.Distinct([]byte("lease2"), refmodel.BE(uint64(sec), 4))
 	}
-	for _, sec := range []int64{-1, -86400, 1 << 32, 1<<32 + 1, 1 << 33, 253402300799, 1 << 40} {
+	// out-of-range times: the powers of two and their neighbours up to 2^62, a geometric-arithmetic grid
+	// of 40,000 instants between 2^32 s and 2^62 s (every derived count - ms, us, ns - wraps somewhere
+	// in there), their negatives, and sub-second parts at the two edges of the range
+	outOfRange := []int64{-1, -86400, 1 << 32, 1<<32 + 1, 1 << 33, 253402300799, 1 << 40}
+	for k := 32; k <= 62; k++ {
+		outOfRange = append(outOfRange, 1<<k-1, 1<<k, 1<<k+1, -(1 << k), -(1<<k - 1))
+	}
+	for k := 32; k < 62; k++ {
+		step := (int64(1) << k) / 1334
+		for i := int64(1); i < 1334; i++ {
+			outOfRange = append(outOfRange, 1<<k+i*step+i%7)
+		}
+	}
+	for _, sec := range outOfRange {
+		if sec >= 0 && sec <= 1<<32-1 {
+			continue
+		}
 		r.Evaluations.Add(1)
 		if c, err := lease.NewLease2(data.Hash{9}, 3, time.Unix(sec, 0)); err == nil {
 			bad("lease2-ctor-range", "lease.NewLease2", fmt.Sprintf("time %d s is outside the 32-bit range but was accepted and stored as %d", sec, c.EndDate()))
+			break
+		}
+	}
+	r.Note("lease2_out_of_range_instants", len(outOfRange))
+	for _, ns := range []int64{1, 999999999} {
+		r.Evaluations.Add(2)
+		if c, err := lease.NewLease2(data.Hash{9}, 3, time.Unix(1<<32-1, ns)); err != nil || c.EndDate() != 1<<32-1 {
+			bad("lease2-ctor", "lease.NewLease2", fmt.Sprintf("time 2^32-1 s + %d ns: err=%v", ns, err))
+		}
+		if c, err := lease.NewLease2(data.Hash{9}, 3, time.Unix(-1, ns)); err == nil {
+			bad("lease2-ctor-range", "lease.NewLease2", fmt.Sprintf("time -1 s + %d ns is before the epoch but was accepted and stored as %d", ns, c.EndDate()))
 		}
 	}
 	if v, _, err := lease.ReadLease2((refmodel.Lease2{Hash: [32]byte{9}, EndSec: now - 86400}).Bytes()); err != nil || !v.IsExpired() {
@@ -170,7 +201,11 @@ func runC15(r *core.Run) {
 		r.Distinct([]byte("lease"), refmodel.BE(ms, 8))
 	}
 	// offline signature and meta entry
-	for _, exp := range []uint32{1, 1<<31 - 1, 1 << 31, 1<<32 - 1, now - 86400, now + 86400} {
+	exps := []uint32{1, 1<<31 - 1, 1 << 31, 1<<32 - 1, now - 86400, now + 86400, 0}
+	for k := 1; k < 32; k++ {
+		exps = append(exps, 1<<k-1, 1<<k, 1<<k+1)
+	}
+	for _, exp := range exps {
 		r.Evaluations.Add(1)
 		o, err := offline_signature.NewOfflineSignature(exp, 7, kp.Pub, make([]byte, 64), 7)
 		if err != nil {
@@ -178,8 +213,18 @@ func runC15(r *core.Run) {
 			continue
 		}
 		d, derr := o.ExpiresDate()
-		if o.ExpiresTime().Unix() != int64(exp) || derr != nil || !bytes.Equal(d.Bytes(), refmodel.BE(uint64(exp)*1000, 8)) {
+		if !o.ExpiresTime().Equal(time.Unix(int64(exp), 0)) || derr != nil || !bytes.Equal(d.Bytes(), refmodel.BE(uint64(exp)*1000, 8)) {
 			bad("offline-expiry", "OfflineSignature.ExpiresTime/ExpiresDate", fmt.Sprintf("expires=%d -> %d / %v", exp, o.ExpiresTime().Unix(), d))
+		}
+		// the same field value reached through the parser
+		ob := refmodel.Offline{Expires: exp, TransType: 7, TransKey: kp.Pub, Sig: make([]byte, 64)}
+		if po, _, perr := offline_signature.ReadOfflineSignature(ob.Bytes(), 7); perr != nil {
+			bad("parse", "ReadOfflineSignature", perr.Error())
+		} else {
+			pd, pderr := po.ExpiresDate()
+			if po.Expires() != exp || !po.ExpiresTime().Equal(time.Unix(int64(exp), 0)) || pderr != nil || !bytes.Equal(pd.Bytes(), refmodel.BE(uint64(exp)*1000, 8)) {
+				bad("offline-expiry", "OfflineSignature(parsed).ExpiresTime/ExpiresDate", fmt.Sprintf("expires=%d -> %d / %v", exp, po.ExpiresTime().Unix(), pd))
+			}
 		}
 		if exp == now-86400 && !o.IsExpired() {
 			bad("is-expired", "OfflineSignature.IsExpired", "expired a day ago but not reported expired")
